@@ -56,6 +56,13 @@ def mainScope (t : Tmpl) : Scope := { top := true, cd := usesCaller t, bind := f
 /-- does the `% for` get a loop context? -/
 def forCtx (items : List Expr) (body : Tmpl) : Bool := argsMentionLoop items || mentionsLoopDeep body
 
+/-- names of the closures a scope declares -/
+def declNames (t : Tmpl) : List Name := (Spec.declared false 0 t).map (·.1)
+
+def nodupB : List Name → Bool
+  | [] => true
+  | a :: l => !l.contains a && nodupB l
+
 /-- the guarded fragment, for the nodes of a scope `sc`.  `inLoop`: a loop context of this callable is active;
     `buf`: the callable buffers its content (then `<% return %>` would lose it). -/
 def Good (sc : Scope) (inLoop buf : Bool) : Tmpl → Bool
@@ -73,13 +80,15 @@ def Good (sc : Scope) (inLoop buf : Bool) : Tmpl → Bool
   | .while_ _ b => Good sc inLoop buf b
   | .try_ b h => Good sc inLoop buf b && Good sc inLoop buf h
   | .def_ name _ fl body =>
-    sc.top && name != 0 && !fl.cached && Good (defScope body) false (Spec.isBuffering fl) body
+    name != 0 && !fl.cached && nodupB (declNames body) &&
+      (if sc.top then Good (defScope body) false (Spec.isBuffering fl) body
+       else !sc.bind && Good (subScope sc false body) false (Spec.isBuffering fl) body)
   | .block _ _ _ _ => false
   | .include_ _ => false
   | .call e _ body => GoodE inLoop true e && Good (bodyScope sc body) false false body
 
 /-- a whole template -/
-def GoodTop (t : Tmpl) : Bool := Good (mainScope t) false false t
+def GoodTop (t : Tmpl) : Bool := Good (mainScope t) false false t && nodupB (declNames t)
 
 /-- no `<%def>` / `<%block>` anywhere below (through control lines and `<%call>` bodies) -/
 def NoDefs : Tmpl → Bool
@@ -120,13 +129,13 @@ def OptRel {α β : Type} (R : α → β → Prop) : Option α → Option β →
 inductive FunRel : Fun → Spec.SFun → Prop
   /-- `render_body` (`s.top`) or a top-level def: one of the `write_def_finish` shapes -/
   | def_ (s : Scope) (ps : List Name) (fl : DefFlags) (body : Tmpl) (own : Bool) (mod : Nat) (kind : Spec.Kind) :
-      ((kind = .def_ ∧ s.top = false) ∨ (kind = .main ∧ s.top = true)) → fl.cached = false →
-      Good s false (Spec.isBuffering fl) body = true →
+      ((kind = .def_ ∧ s.top = false ∧ s.bind = false) ∨ (kind = .main ∧ s.top = true)) → fl.cached = false →
+      nodupB (declNames body) = true → Good s false (Spec.isBuffering fl) body = true →
       FunRel ⟨ps, ⟨own, fl.deco, false⟩, defShape fl (.seq (hoist s body) (.prim .getWriter)) (stmts s body)⟩
              ⟨ps, fl, body, kind, mod⟩
   /-- `body()` of a `<%call>`: no frame of its own, `caller` is the closure variable of `ccall(caller)` -/
   | body (s : Scope) (args : List Name) (body : Tmpl) (own : Bool) (mod : Nat) :
-      s.top = false → Good s false false body = true →
+      s.top = false → s.bind = true → Good s false false body = true →
       FunRel ⟨args, ⟨own, false, true⟩,
               .seq (.seq (bodyHoist s body) (.prim .getWriter)) (.seq (stmts s body) (.ret emptyStr))⟩
              ⟨args, noFlags, body, .body, mod⟩
@@ -344,40 +353,40 @@ theorem nodefs_facts : ∀ t : Tmpl, NoDefs t = true → NoDefsFacts t := by
       fun top mod => by simp [Spec.declared], fun mod => by simp [Spec.callDefsOf]⟩
 
 /-- in a scope that is not the template body the guard admits no `<%def>` at all -/
-theorem good_nodefs : ∀ (t : Tmpl) (sc : Scope) (il bf : Bool), sc.top = false → Good sc il bf t = true →
-    NoDefs t = true := by
+theorem good_nodefs : ∀ (t : Tmpl) (sc : Scope) (il bf : Bool), sc.top = false → sc.bind = true →
+    Good sc il bf t = true → NoDefs t = true := by
   intro t
   induction t with
   | seq a b iha ihb =>
-    intro sc il bf ht h
+    intro sc il bf ht hbd h
     simp only [Good, Bool.and_eq_true] at h
-    simp [NoDefs, iha sc il bf ht h.1, ihb sc il bf ht h.2]
+    simp [NoDefs, iha sc il bf ht hbd h.1, ihb sc il bf ht hbd h.2]
   | ite c a b iha ihb =>
-    intro sc il bf ht h
+    intro sc il bf ht hbd h
     simp only [Good, Bool.and_eq_true] at h
-    simp [NoDefs, iha sc il bf ht h.1.2, ihb sc il bf ht h.2]
+    simp [NoDefs, iha sc il bf ht hbd h.1.2, ihb sc il bf ht hbd h.2]
   | try_ a b iha ihb =>
-    intro sc il bf ht h
+    intro sc il bf ht hbd h
     simp only [Good, Bool.and_eq_true] at h
-    simp [NoDefs, iha sc il bf ht h.1, ihb sc il bf ht h.2]
+    simp [NoDefs, iha sc il bf ht hbd h.1, ihb sc il bf ht hbd h.2]
   | for_ x items b ih =>
-    intro sc il bf ht h
+    intro sc il bf ht hbd h
     simp only [Good, Bool.and_eq_true] at h
-    simp [NoDefs, ih sc _ bf ht h.2]
+    simp [NoDefs, ih sc _ bf ht hbd h.2]
   | while_ m b ih =>
-    intro sc il bf ht h
+    intro sc il bf ht hbd h
     simp only [Good] at h
-    simp [NoDefs, ih sc il bf ht h]
+    simp [NoDefs, ih sc il bf ht hbd h]
   | call e args b ih =>
-    intro sc il bf ht h
+    intro sc il bf ht hbd h
     simp only [Good, Bool.and_eq_true] at h
-    simp [NoDefs, ih (bodyScope sc b) false false rfl h.2]
+    simp [NoDefs, ih (bodyScope sc b) false false rfl rfl h.2]
   | def_ name ps fl b _ =>
-    intro sc il bf ht h
-    simp [Good, ht] at h
-  | block _ _ _ _ _ => intro sc il bf _ h; simp [Good] at h
-  | include_ _ => intro sc il bf _ h; simp [Good] at h
-  | _ => intro _ _ _ _ _; rfl
+    intro sc il bf ht hbd h
+    simp [Good, ht, hbd] at h
+  | block _ _ _ _ _ => intro sc il bf _ _ h; simp [Good] at h
+  | include_ _ => intro sc il bf _ _ h; simp [Good] at h
+  | _ => intro _ _ _ _ _ _; rfl
 
 /-- the template body itself: its `<%def>`s are module-level callables, its own prologue is empty -/
 theorem good_top_hoist : ∀ (t : Tmpl) (sc : Scope) (il bf : Bool), sc.top = true → Good sc il bf t = true →
